@@ -143,7 +143,13 @@ impl<'a> SplitMessageBytes<'a> for &'a UnparsedName {
                 // This is a compression pointer.
                 [hi, lo, ..] if hi >= 0xC0 => {
                     let ptr = u16::from_be_bytes([hi, lo]);
-                    if usize::from(ptr - 0xC000) >= start {
+                    // The pointer counts from the start of the message,
+                    // 'start' from the start of the contents, i.e., from
+                    // behind the 12-byte header.
+                    let target = usize::from(ptr - 0xC000)
+                        .checked_sub(12)
+                        .ok_or(ParseError)?;
+                    if target >= start {
                         return Err(ParseError);
                     }
 
